@@ -83,6 +83,8 @@ inductive Status
   | diverge
   /-- the implementation would perform an undefined operation (`unwrap_unchecked` on `Err`) -/
   | ub
+  /-- user code called back by the operation panicked (C16) -/
+  | userPanic
 deriving Repr, DecidableEq, Inhabited
 
 structure Res where
